@@ -191,6 +191,48 @@ class H(object):
                            'traceback': traceback.format_exc()}, f)
 
 
+_GEN_COUNT = [0]
+
+
+def cond_fn(name, params, body, pre=(), consts=None):
+    """Build a contract-carrying function for CrossHair with exactly the given symbolic
+    parameters.  params: [(name, type-expression-string)], pre: PEP316 precondition
+    strings, consts: concrete entries merged into the input dict handed to `body`.
+    The source is registered with linecache so that CrossHair can read the contract."""
+    import linecache
+    import typing
+    _GEN_COUNT[0] += 1
+    fname = '<vf-cond-%s-%d>' % (name, _GEN_COUNT[0])
+    sig = ', '.join('%s: %s' % (n, t) for n, t in params)
+    names = ', '.join(repr(n) for n, _ in params)
+    vals = ', '.join(n for n, _ in params)
+    lines = ['def %s(%s) -> bool:' % (name, sig), '    """']
+    for pc in pre:
+        lines.append('    pre: ' + pc)
+    lines += ['    post: _', '    """',
+              '    return __vf_run__(%r, (%s,), (%s,))' % (name, names, vals), '']
+    src = '\n'.join(lines)
+    linecache.cache[fname] = (len(src), None, [l + '\n' for l in lines], fname)
+    consts = dict(consts or {})
+
+    def runner(cname, keys, values):
+        with ch.NoTracing():
+            I = dict(zip(keys, values))
+            I.update(consts)
+        return H.run(cname, I, body)
+    import sys
+    import types
+    modname = 'vf_generated_%d' % _GEN_COUNT[0]
+    mod = types.ModuleType(modname)
+    mod.__file__ = fname
+    g = mod.__dict__
+    g.update({'__vf_run__': runner, 'Tuple': typing.Tuple, 'List': typing.List,
+              'Optional': typing.Optional})
+    sys.modules[modname] = mod
+    exec(compile(src, fname, 'exec'), g)
+    return g[name]
+
+
 def _jsonable(x):
     if isinstance(x, dict):
         return {str(k): _jsonable(v) for k, v in x.items()}
